@@ -131,6 +131,22 @@ def _check_unit(u, unit, A, O, B, ctx):
     shown = '\n'.join('%s   // cdef kwargs %r' % d for d in decls)
     import cffi
     ffi = cffi.FFI()
+    if u % 3 == 1:
+        # staged declaration: every tagged aggregate is first declared opaque and used (its ctype gets
+        # built), the definition arrives in a later cdef() and must re-complete the existing ctype
+        staged = 0
+        for i, a in enumerate(unit):
+            T = agg.type_name(unit, i, prefix)
+            if T.startswith(('struct ', 'union ')):
+                try:
+                    ffi.cdef(T + ';')
+                    opaque = ffi.typeof(T + ' *')
+                    ffi.typeof(T)
+                except Exception as e:
+                    ctx.fail('forward declaration of %s rejected: %s: %s' % (T, type(e).__name__, e), unit=shown)
+                staged += 1
+        if staged:
+            ctx.event('declared-opaque-and-used-before-definition')
     for i, (txt, kw) in enumerate(decls):
         try:
             ffi.cdef(txt, **kw)
